@@ -464,6 +464,7 @@ func (x *TopicsIndex) RetainMessage(pk packets.Packet) int64 {
 	n.Lock()
 	defer n.Unlock()
 	if len(pk.Payload) > 0 {
+		verifPoint("retain.store") // schedule point between set(...) and the store (verif build tag)
 		n.retainPath = pk.TopicName
 		x.Retained.Add(pk.TopicName, pk)
 		return 1
